@@ -27,7 +27,7 @@ def families(args):
     progs = ppfamily.include_programs(args.tier, args.seed)
     fam = ppprop.Family('include-graphs', progs, mk_case, ('tokens', 'table', 'opened', 'origin'), want_origins=True,
                         quirk_roles=[(('include_line_uses_piece_start',), 'F8:include-line-check-uses-first-line-of-text-run', ('tokens',)),
-                                     (('macro_named_include_drops_trailing_ws',), 'F11:macro-named-include-drops-the-white-space-after-it', ('tokens', 'origin'))])
+                                     (('macro_named_include_drops_trailing_ws',), 'F11:macro-named-include-drops-the-white-space-after-it', ('tokens',))])
     return [fam]
 
 
